@@ -299,6 +299,12 @@ class SimWorld:
 
 
 def _jsonable(v: Any) -> Any:
+    if hasattr(v, "tolist") and hasattr(v, "dtype") and getattr(v, "ndim", 0) > 0:
+        # numpy values: repr() is lossy (8 significant digits), the element list is exact
+        try:
+            return {"__ndarray__": str(v.dtype), "values": _jsonable(v.tolist())}
+        except Exception:
+            pass
     if isinstance(v, dict) and not all(isinstance(k, str) for k in v):
         return {f"{type(k).__name__}:{k!r}": _jsonable(x) for k, x in v.items()}      # keys of mixed types are not sortable
     try:
